@@ -229,13 +229,15 @@ class Manager:
         self.cls._default_backend = g0
 
     # ---- operations (executed inside a participant thread)
-    def op(self, ev, ctxs):
+    def op(self, ev, ctxs, by_instance=False):
+        """by_instance: hand the backend over as an instance instead of a name (both are documented ways of selecting)."""
         k = ev[0]
+        arg = (lambda nm: self.cls._loaded_backends[nm]) if by_instance else (lambda nm: nm)
         try:
             if k == "query":
                 return ("ok",)
             if k == "set":
-                self.mod.set_backend(ev[1], local_threadsafe=(ev[2] == "L"))
+                self.mod.set_backend(arg(ev[1]), local_threadsafe=(ev[2] == "L"))
                 return ("ok",)
             if k == "setbad":
                 try:
@@ -244,7 +246,7 @@ class Manager:
                     return ("rejected", type(e).__name__)
                 return ("accepted-bogus",)
             if k == "enter":
-                cm = self.mod.backend_context(ev[1], local_threadsafe=(ev[2] == "L"))
+                cm = self.mod.backend_context(arg(ev[1]), local_threadsafe=(ev[2] == "L"))
                 cm.__enter__()
                 ctxs.append(cm)
                 return ("ok",)
